@@ -20,7 +20,15 @@ pub struct Case {
     /// raw type word per entry (for as many entries as fit)
     pub types: Vec<u32>,
     pub key: u64,
+    /// every entry's sh_link holds a small index (as in real section tables)
+    /// instead of marker bytes
+    #[serde(default)]
+    pub small_links: bool,
 }
+
+/// Reserved ELF section indices (SHN_LORESERVE, SHN_ABS, SHN_COMMON, SHN_XINDEX)
+/// and their neighbours: as a string-table index they are ordinary numbers.
+const SHN_SPECIAL: [u32; 7] = [0xff00, 0xff1f, 0xfff1, 0xfff2, 0xfffe, 0xffff, 0x1_0000];
 
 /// Harness-owned, NUL-terminated names the string-table entry points at.
 /// (`name()` dereferences an address stored in the tag: documented external
@@ -73,6 +81,10 @@ fn image(c: &Case) -> Vec<u8> {
                 put32(&mut body, at + 12, names32() as u32);
             } else {
                 put64(&mut body, at + 16, p);
+            }
+            if c.small_links {
+                let l = ((c.key >> 8) as usize + e) % (fit + 1);
+                put32(&mut body, at + if es == 40 { 24 } else { 40 }, l as u32);
             }
         }
     }
@@ -319,7 +331,7 @@ fn enumerate(ctx: &Ctx) -> Box<dyn Iterator<Item = Case>> {
     for (n, es, fit) in [(0x0400_0000u32, 64u32, 2usize), (0x0400_0002, 64, 2), (0x0666_6667, 40, 1), (0x0666_6668, 40, 3), (0x0800_0001, 64, 1)] {
         for shndx in [0u32, 1, n - 1] {
             rot += 1;
-            v.push(Case { n, entsize: es, shndx, table_len: fit * es as usize, types: vec![1, 2, 3, 1], key: 0xE1F0 + rot as u64 });
+            v.push(Case { n, entsize: es, shndx, table_len: fit * es as usize, types: vec![1, 2, 3, 1], key: 0xE1F0 + rot as u64, small_links: false });
         }
     }
     for n in 0..=nmax {
@@ -335,10 +347,11 @@ fn enumerate(ctx: &Ctx) -> Box<dyn Iterator<Item = Case>> {
             for table_len in lens {
                 let mut idx: Vec<u32> = (0..n).collect();
                 idx.extend([n, 1 << 16, u32::MAX, 0x0400_0000 + n.saturating_sub(1), 0x0666_6667]);
+                idx.extend(SHN_SPECIAL);
                 for shndx in idx {
                     rot += 1;
                     let types: Vec<u32> = (0..8).map(|e| tc[(rot * 3 + e * 7) % tc.len()]).collect();
-                    v.push(Case { n, entsize: es, shndx, table_len, types, key: rot as u64 });
+                    v.push(Case { n, entsize: es, shndx, table_len, types, key: rot as u64, small_links: rot % 2 == 0 });
                 }
             }
         }
@@ -355,7 +368,7 @@ fn strategy(_: &Ctx) -> BoxedStrategy<Case> {
     (
         prop_oneof![8 => 0u32..12, 1 => any::<u32>(), 1 => Just(1u32 << 20), 2 => wrap_values()],
         prop_oneof![4 => Just(40u32), 4 => Just(64u32), 1 => 0u32..130, 1 => any::<u32>()],
-        prop_oneof![6 => 0u32..12, 1 => any::<u32>(), 1 => wrap_values()],
+        prop_oneof![6 => 0u32..12, 1 => any::<u32>(), 1 => wrap_values(), 1 => proptest::sample::select(SHN_SPECIAL.to_vec())],
         0usize..14,
         prop_oneof![6 => Just(0i32), 2 => -9i32..9, 1 => -70i32..70],
         proptest::collection::vec(prop_oneof![3 => proptest::sample::select(type_classes()), 1 => any::<u32>()], 16),
@@ -366,7 +379,7 @@ fn strategy(_: &Ctx) -> BoxedStrategy<Case> {
             let shndx = if shndx < 12 && fit > 0 && key & 3 != 0 { shndx % fit as u32 } else { shndx };
             let n = if n < 12 && key & 12 != 0 { fit as u32 } else { n };
             let table_len = ((fit * es) as i64 + delta as i64).clamp(0, 4000) as usize;
-            Case { n, entsize, shndx, table_len, types, key }
+            Case { n, entsize, shndx, table_len, types, key, small_links: key & 0x30 == 0 }
         })
         .boxed()
 }
@@ -374,7 +387,7 @@ fn strategy(_: &Ctx) -> BoxedStrategy<Case> {
 pub fn subs() -> Vec<Box<dyn Sub>> {
     vec![Box::new(PropSub::<Case> {
         name: "elf-iter",
-        rule: "ELF-sections tags with marker entry bytes, stand-alone ending at a PROT_NONE page; every entry's addr field points at a harness-owned NUL-terminated names buffer (some names invalid UTF-8) so that name() is defined. Enumerated: n 0..=5 (thorough 7) x entry size {0,39,40,41,63,64,65,128} x table length {n*es, +8, -1, -8} x shndx {0..n-1, n, 2^16, 2^32-1} with raw types rotating through 20 classes; generated: up to 13 fitting entries, random counts/sizes/indices/types. Fits (es in {40,64}, n*es <= len, (shndx+1)*es <= len): exactly the in-use entries in order with type/flags/addr/size/align/name decoded by the model from the ELF32/ELF64 layout. Count or size outside: controlled panic, anything produced before it is a correct in-tag entry. shndx outside: sections() or every name() panics. n == 0: no items. Non-trivial = not Fits, or n>=2 with a skipped entry; distinct by image hash",
+        rule: "ELF-sections tags with marker entry bytes (sh_link alternately a small in-table index), stand-alone ending at a PROT_NONE page; every entry's addr field points at a harness-owned NUL-terminated names buffer (some names invalid UTF-8) so that name() is defined. Enumerated: n 0..=5 (thorough 7) x entry size {0,39,40,41,63,64,65,128} x table length {n*es, +8, -1, -8} x shndx {0..n-1, n, 2^16, 2^32-1, reserved ELF indices 0xff00..0xffff} with raw types rotating through 20 classes; generated: up to 13 fitting entries, random counts/sizes/indices/types. Fits (es in {40,64}, n*es <= len, (shndx+1)*es <= len): exactly the in-use entries in order with type/flags/addr/size/align/name decoded by the model from the ELF32/ELF64 layout. Count or size outside: controlled panic, anything produced before it is a correct in-tag entry. shndx outside: sections() or every name() panics. n == 0: no items. Non-trivial = not Fits, or n>=2 with a skipped entry; distinct by image hash",
         profiles: Profiles::Both,
         quick: 4000,
         thorough: 150000,
